@@ -17,7 +17,7 @@ import (
 	"golang.org/x/tools/go/ssa"
 )
 
-const nbtPath = core.ModPath + "/nbt"
+var nbtPath = core.ModPath + "/nbt"
 
 // tagConst: e denotes one of the nbt.Tag* constants; returns its name and value.
 func tagConst(info *types.Info, e ast.Expr) (string, int64, bool) {
